@@ -3,6 +3,7 @@ R40 CBTIME, R30 DELAY."""
 from __future__ import annotations
 
 import ast
+import itertools
 
 from .. import lek
 from ..absbase import FinamInterp, Logger, Order, Ref
@@ -181,10 +182,13 @@ def r20_target(repo, sink):
     sink.check(it.events == [("notify", "tgt1", tn), ("notify", "tgt2", tn)], "R20", "notify-all-targets", outn,
                ok="an output notifies every target with the publication time", bad=f"Output.notify_targets performs {it.events!r}")
     # Component.connect pings every input exactly in the INITIALIZED phase
-    c = repo.method("Component", "connect")
-    pings = [x for x in calls(c.node, "ping")]
-    ok = len(pings) == 1 and any(isinstance(p, ast.For) and "inputs" in U(p.iter) for p in _parents(pings[0]))
-    sink.check(ok, "R20", "ping-all-inputs", c, ok="connect() pings every input once", bad="connect() does not ping every input")
+    # (decided by an abstract run of the real connect() over a component with two inputs, see lifetrace.r07w_connect)
+    from ..report import Sink as _Sink
+    from .lifetrace import r07w_connect
+    sub = _Sink()
+    r07w_connect(repo, sub)
+    for o in sub.obs:
+        sink._add(o.verdict, "R20", "ping-all-inputs", (o.file, o.line), o.msg, func=o.func)
 
 
 def _quiet_targets():
@@ -569,7 +573,7 @@ def r17_pushpath(repo, sink):
     f = repo.resolve(c, "push_data", "method")
     q = Sym("q")
 
-    def mk(n_prev=0, prev_file=False, static=False, exchanged=True, targets=True, n_pinged=1, n_exchanged=None):
+    def mk(n_prev=0, prev_file=False, static=False, exchanged=True, targets=True, n_pinged=1, n_exchanged=None, limit="auto"):
         """An output as the real code leaves it: constructed (partial evaluation of the constructors), given its info by
         push_info, linked by add_target, registered end points by pinged, infos exchanged by get_info - then `n_prev` real
         publications.  No private attribute is named; the payloads of earlier publications are then replaced by stand-ins."""
@@ -597,6 +601,10 @@ def r17_pushpath(repo, sink):
             it.run(f, [Sym("earlier", i), None if static else Sym("T", i)], self_obj=o)
         if n_prev:
             o.fields["data"] = [(t, Sym("file", i) if prev_file else Sym("prev", i)) for i, (t, _p) in enumerate(o.fields["data"])]
+        # entries live in files only under a memory limit (set through the public property)
+        lim = (0 if prev_file else None) if limit == "auto" else limit
+        if lim is not None:
+            it.store_attr(o, "memory_limit", lim, None)
         return o
 
     def time_of(o):
@@ -638,6 +646,12 @@ def r17_pushpath(repo, sink):
           and not any(e[0] in ("pack", "notify") for e in it.events)
           and len(sc) == 1 and Sym("attr", Sym("prev", 1), "data") in sc[0][1:] and Sym("attr", Sym("prepared", Sym("payload")), "data") in sc[0][1:])
     cases.append(("shares-memory-with-newest", ok, f"{err} {it.events} data={o.fields['data']!r}"))
+    # 5b the same under a memory limit that is not reached: the newest entry is still in RAM and must still be protected
+    o = mk(n_prev=2, limit=Sym("limit-not-reached"))
+    err, it = run(o, shares=True)
+    cases.append(("shares-memory-with-newest-under-limit", err == "FinamDataError" and len(o.fields["data"]) == 2 and not any(e[0] in ("pack", "notify") for e in it.events),
+                  f"{err} {it.events} data={o.fields['data']!r}: with a memory limit configured but not reached the previous publication is still in RAM; "
+                  "a re-used buffer must be refused exactly as without a limit"))
     # 6 newest entry lives in a file: no memory comparison possible, accepted
     o = mk(n_prev=1, prev_file=True)
     err, it = run(o, shares=True)
@@ -998,6 +1012,8 @@ def r40_cbtime(repo, sink):
             r1b = it.run(ws, [None, q], self_obj=me)
             n_pulls_2 = len(it.pulled)
             r2 = it.run(ws, [None, q2], self_obj=me)
+            n_pulls_3 = len(it.pulled)
+            r3 = it.run(ws, [None, q], self_obj=me)  # a second, slower consumer asks for the earlier time again
         except (Raised, Undecided) as exc:
             raise AnalysisError(f"WeightedSum._get_data outside vocabulary: {exc}") from exc
         from ..absbase import same_value
@@ -1036,8 +1052,11 @@ def r40_cbtime(repo, sink):
             why = f"result is {strip_copy(r1)!r}, expected the sum over all names of value x own weight (time-stripped)"
         elif n_pulls_2 != n_pulls_1 or not same_value(strip_copy(r1b), expect(q)):
             why = "a repeated request for the same time must serve the same sum without pulling again"
-        elif not same_value(strip_copy(r2), expect(q2)) or sorted(it.pulled[n_pulls_2:]) != sorted((nm, q2) for nm in inputs):
-            why = f"request for a later time yields {strip_copy(r2)!r} after pulls {it.pulled[n_pulls_2:]!r}"
+        elif not same_value(strip_copy(r2), expect(q2)) or sorted(it.pulled[n_pulls_2:n_pulls_3], key=repr) != sorted(((nm, q2) for nm in inputs), key=repr):
+            why = f"request for a later time yields {strip_copy(r2)!r} after pulls {it.pulled[n_pulls_2:n_pulls_3]!r}"
+        elif not same_value(strip_copy(r3), expect(q)) or sorted(it.pulled[n_pulls_3:], key=repr) != sorted(((nm, q) for nm in inputs), key=repr):
+            why = (f"a request for an earlier time after a later one yields {strip_copy(r3)!r} after pulls {it.pulled[n_pulls_3:]!r}: the provider must be invoked "
+                   "for exactly the requested time, the memo only serves repeated requests for the same time")
         sink.check(why is None, "R40", "weighted-sum", ws,
                    ok="provider pulls every input for the requested time and returns sum(value x own weight), memoised per time", bad=why or "")
         repo._ws_pull_targets = list(it.pull_targets)
@@ -1149,6 +1168,13 @@ class _ShapeInterp(FinamInterp):
     def get_attr(self, obj, attr, node, mod):
         if isinstance(obj, _Arr) and attr == "reshape":
             return Sym("reshape_of", Ref(obj))
+        if isinstance(obj, _Arr) and attr == "ndim" and "shape" in obj.fields:
+            return len(obj.fields["shape"])
+        if isinstance(obj, _Arr) and attr == "size" and "shape" in obj.fields and all(isinstance(x, int) for x in obj.fields["shape"]):
+            n = 1
+            for x in obj.fields["shape"]:
+                n *= x
+            return n
         return super().get_attr(obj, attr, node, mod)
 
     def call_hook(self, fv, args, kwargs, node, mod):
@@ -1211,7 +1237,7 @@ def r18s_shape(repo, sink):
         def isinstance(self, v, klass, node):
             from ..loader import Class
             if isinstance(klass, Class) and isinstance(v, Obj) and v.label == "grid":
-                return klass.name in ("Grid", "GridBase")
+                return klass.name in ("Grid", "GridBase") or (klass.name == "StructuredGrid" and "axes_reversed" in v.fields)
             if isinstance(klass, Class) and isinstance(v, Obj) and v.label == "nogrid":
                 return klass.name in ("NoGrid", "GridBase")
             return super().isinstance(v, klass, node)
@@ -1233,19 +1259,33 @@ def r18s_shape(repo, sink):
         ((4, 2), 1, ("raise", "FinamDataError")),
     ]
     worst = None
-    for shape, te, want in table:
+    # (the grid's memory order as a symbol, and as every concrete layout: the data shape and data points of a grid are given in
+    #  grid.order whether or not its axes are listed in reverse, so a flat payload is always read in grid.order)
+    layouts = [(Sym("ORDER"), None)] + [(o, r) for o in ("F", "C") for r in (False, True)]
+    for (order, rev), (shape, te, want) in itertools.product(layouts, table):
+        grid.fields["order"] = order
+        grid.fields.pop("axes_reversed", None)
+        if rev is not None:
+            grid.fields["axes_reversed"] = rev
         it = _I(repo)
         try:
             got = it.run(f, [_arr(shape), info, te])
             res = ("shape", got.fields["shape"]) if got.label != "reshaped" else ("reshape", got.fields["shape"])
-            if got.label == "reshaped" and got.fields.get("order") != Sym("ORDER"):
-                res = ("reshape-without-grid-order", got.fields["shape"])
+            if got.label == "reshaped" and got.fields.get("order") != order:
+                res = (f"reshape in order {got.fields.get('order')!r} instead of the grid's order {order!r}", got.fields["shape"])
         except Raised as r:
             res = ("raise", r.name)
         except Undecided as u:
             raise AnalysisError(f"_check_input_shape: undecidable {u}") from u
+        except AnalysisError:
+            if rev is None:
+                continue  # the symbolic order is outside the vocabulary of this body: the concrete layouts decide
+            raise
         if res != want:
-            worst = worst or f"data of shape {shape} ({te} time entr{'y' if te == 1 else 'ies'}) on a grid with data shape (3, 2): {res}, expected {want}"
+            worst = worst or (f"data of shape {shape} ({te} time entr{'y' if te == 1 else 'ies'}) on a grid with data shape (3, 2), order {order!r}"
+                              f"{'' if rev is None else ', axes_reversed=' + str(rev)}: {res}, expected {want}")
+    grid.fields["order"] = Sym("ORDER")
+    grid.fields.pop("axes_reversed", None)
     sink.check(worst is None, "R18", "shape-table:grid", f,
                ok=f"{len(table)} shapes: leading time axis added, flat data reshaped in the grid's order, mismatches refused", bad=worst or "")
     # data without a grid
